@@ -160,7 +160,12 @@ fn gen_c10(seed: u64, tier: Tier) -> Scenario {
     let nsuf = (n - npre.min(n)).clamp(3, 40);
     let mut m2 = OpMix::swarm(&mut rng, nsuf);
     m2.w_reset = 0.0;
-    let suffix = if rng.chance(0.5) { gen_ops_uniform(&mut rng, &sc.config, &m2) } else { gen_ops_adversarial(&mut rng, &sc.config, &m2) };
+    let mut suffix = if rng.chance(0.5) { gen_ops_uniform(&mut rng, &sc.config, &m2) } else { gen_ops_adversarial(&mut rng, &sc.config, &m2) };
+    // ... and keeps varying them afterwards (a channel skipped right after the reset must not find old data later)
+    if sc.config.channels > 0 && rng.chance(0.35) {
+        let pm = rng.uniform(0.1, 0.5);
+        sprinkle(&mut rng, &sc.config, &mut suffix, pm, 0.0);
+    }
     ops.extend(suffix);
     sc.profile = format!("{}+reset+suffix", p);
     sc.sim_seconds = t;
